@@ -660,6 +660,17 @@ def check_exec_reachability(chk, prog, unit):
                     lab = case_label_of(f, p)
                     ok = lab is not None and lab.get("k") == "case" and X.const_val(lab.get("val")) == ord("`")
                     why = "direct call under %s" % (X.render(lab.get("val")) if lab is not None and lab.get("val") else "no case label")
+                    if not ok:
+                        # the backquote arm written as a branch of an if / else-if chain on the current character
+                        child = p
+                        for anc in f.ancestors(p):
+                            if anc.get("k") == "if" and anc.get("then") is not None and any(y is child for y in walk(anc["then"])) and any(
+                                    y.get("k") == "bin" and y.get("op") == "==" and ord("`") in (X.const_val(y["ch"][0]), X.const_val(y["ch"][1]))
+                                    for y in walk(anc["cond"])):
+                                ok = True
+                                why = "direct call under the test %s" % X.render(anc["cond"])[:30]
+                                break
+                            child = anc
                 chk.ob("E2", f.name, "exec-reference", ok, loc=f.loc(x),
                        detail="%s refers to builtin_exec outside the \"exec\" table entry and the backquote arm (%s)" % (f.name, why),
                        proof="table entry \"exec\" / backquote case")
@@ -1508,12 +1519,29 @@ def check_stream_leaks(chk, prog, unit, rule="P9"):
                     opened.setdefault(d, []).append((node, X.callee_name(r)))
         if not opened:
             continue
+        # locals that are given the stream held by such a local (result = fp; return result;) hold it too
+        copies = {}
+        grew = True
+        while grew:
+            grew = False
+            for x in walk(f.body):
+                if x.get("k") == "assign" and x.get("op") == "=":
+                    l, r = X.strip(x["ch"][0]), X.strip(x["ch"][1])
+                    if l is not None and r is not None and l.get("k") == "ref" and l.get("rk") == "local" and r.get("k") == "ref" and \
+                            (r.get("d") in opened or r.get("d") in copies) and l["d"] not in opened and l["d"] not in copies:
+                        copies[l["d"]] = r["d"]
+                        grew = True
         cfg = nullness.prepared_cfg(f, NORETURN)
         leaks = []
 
+        def root_of(d):
+            while d in copies:
+                d = copies[d]
+            return d
+
         def holds(e, d):
             s_ = X.strip(e)
-            return s_ is not None and s_.get("k") == "ref" and s_.get("d") == d
+            return s_ is not None and s_.get("k") == "ref" and (s_.get("d") == d or root_of(s_.get("d")) == d)
 
         def transfer(state, x, blk):
             k = x.get("k")
@@ -1561,7 +1589,7 @@ def check_stream_leaks(chk, prog, unit, rule="P9"):
         def visit(state, x, blk):
             if x.get("k") == "return":
                 for d in opened:
-                    if ("open", d) in state and not (x.get("val") is not None and any(y.get("k") == "ref" and y.get("d") == d for y in walk(x["val"]))):
+                    if ("open", d) in state and not (x.get("val") is not None and any(y.get("k") == "ref" and (y.get("d") == d or root_of(y.get("d")) == d) for y in walk(x["val"]))):
                         leaks.append((x, d))
         flow.forward(cfg, frozenset(), transfer, refine=refine, join=lambda a, b: a | b, visit=visit)
         for d, sites in sorted(opened.items()):
